@@ -374,7 +374,7 @@ def enc_obs(res) -> list:
 def D(x):
     """decode char-code lists back to strings for display"""
     if isinstance(x, list):
-        if x and all(isinstance(i, int) and 32 <= i < 127 for i in x) and len(x) > 1:
+        if x and all(isinstance(i, int) and not isinstance(i, bool) and 32 <= i < 127 for i in x):
             return "".join(chr(i) for i in x)
         return [D(i) for i in x]
     return x
@@ -644,8 +644,25 @@ def classify(impl, model, spec) -> int:
 KCLASS_ORDER = ["K_selfcoll", "K_reserved", "K_pkname", "K_casefold", "K_assocname", "K_nobuiltin", "K_fkalias", "K_discname"]
 
 
+MAX_REPLAYS = 6
+
+
 def judge(rep, rec, model_ok: bool, findings_seen: Dict[str, int], quiet_known=False) -> str:
-    """decide one case; returns a label"""
+    """decide one case; returns a label (at most MAX_REPLAYS replays are written per run, further failures are counted)"""
+    if len(rep.violations) >= MAX_REPLAYS:
+        class Quiet:
+            obligations = rep.obligations
+
+            def violation(self, *a, **k):
+                rep.extra["further_failing_cases"] = rep.extra.get("further_failing_cases", 0) + 1
+
+            def oblige(self, *a, **k):
+                pass
+        return _judge(Quiet(), rec, model_ok, findings_seen)
+    return _judge(rep, rec, model_ok, findings_seen)
+
+
+def _judge(rep, rec, model_ok: bool, findings_seen: Dict[str, int]) -> str:
     d, r = rec["d"], rec["res"]
     ft = features(d)
     kclasses = [k for k in KCLASS_ORDER if ft[k]]
@@ -656,24 +673,28 @@ def judge(rep, rec, model_ok: bool, findings_seen: Dict[str, int], quiet_known=F
     if r.get("stage") in ("crash", "timeout", "start", "diagram", "ormatic") and not kclasses:
         rep.violation(dict(base, kind="counterexample", explanation="generation itself failed on a model of the supported grammar"))
         return "violation"
+    stale = False
     if model_ok:
         wf_m, topo_ok, schema_ok = rec["info"]
         if "gen" in r:
             impl_gen = enc_gen(r["gen"])
             if impl_gen != rec["model_gen"]:
-                rep.oblige("correspondence:model", False, f"generated containers differ from the model on {d['module']}")
-                rep.violation(dict(base, kind="model-mismatch", impl=D(impl_gen), model=D(rec["model_gen"]),
-                                   explanation="ORMatic's tables/columns/association tables/imports differ from what the Gallina model "
-                                               "of the generator computes: the model no longer describes the code (or the code changed behaviour)"))
-                return "violation"
-            if not topo_ok:
+                # the Gallina model no longer describes the generator; fall back to implementation vs Spec for this case
+                stale = True
+                base["generator_vs_model"] = {"impl": D(impl_gen), "model": D(rec["model_gen"])}
+                if not any(o.name == "correspondence:model" and not o.ok for o in rep.obligations):
+                    rep.oblige("correspondence:model", False, f"ORMatic's tables/columns/association tables/imports differ from the Gallina model, first on {d['module']}")
+            elif not topo_ok:
                 rep.violation(dict(base, kind="counterexample", impl=D(impl_gen),
                                    explanation="tables are not emitted parents-first / not one table per class"))
                 return "violation"
+    if model_ok and not stale:
         code = classify(impl_obs, rec["model_obs"], spec)
     else:
         code = 0 if impl_obs == spec else 3
     if code == 0:
+        if stale:
+            return "stale-model"
         if model_ok and not kclasses and not (wf_m and schema_ok):
             rep.oblige("correspondence:wf", False, f"{d['module']}: impl=spec but wfM={wf_m} schema_wf={schema_ok}")
         return "ok"
@@ -693,6 +714,8 @@ def judge(rep, rec, model_ok: bool, findings_seen: Dict[str, int], quiet_known=F
 
 def judge_determinism(rep, rec) -> bool:
     if not rec["det"]:
+        return True
+    if len(rep.violations) >= MAX_REPLAYS:
         return True
     d, r = rec["d"], rec["res"]
     h, s = rec["det"]
